@@ -104,6 +104,15 @@ func refLess(a, b ixn) bool {
 
 func nameMatches(pattern, name string) bool { return pattern == "*" || pattern == name }
 
+// nameMatchesF: fold=true is NOT the specified semantics; it only describes where a defective index
+// folds letter case, to give such a disagreement its own violation key.
+func nameMatchesF(pattern, name string, fold bool) bool {
+	if fold {
+		return pattern == "*" || strings.EqualFold(pattern, name)
+	}
+	return nameMatches(pattern, name)
+}
+
 type decision struct {
 	Allowed, HasPerms, HasExact, Default bool
 	Ext                                  string
@@ -121,6 +130,10 @@ type pairInfo struct {
 // refDecide: the single most specific matching intention decides: most exact destination first,
 // then most exact source; peer must be equal.
 func refDecide(m model, peer, src, dst string, def, allowPerms bool) (decision, pairInfo) {
+	return refDecideF(m, peer, src, dst, def, allowPerms, false, false)
+}
+
+func refDecideF(m model, peer, src, dst string, def, allowPerms, foldSrc, foldDst bool) (decision, pairInfo) {
 	var best *ixn
 	var info pairInfo
 	verdict := func(i ixn) bool {
@@ -141,13 +154,13 @@ func refDecide(m model, peer, src, dst string, def, allowPerms bool) (decision, 
 	}
 	var verdicts []bool
 	for _, i := range m {
-		if i.Peer != peer || !nameMatches(i.Src, src) || !nameMatches(i.Dst, dst) {
+		if i.Peer != peer || !nameMatchesF(i.Src, src, foldSrc) || !nameMatchesF(i.Dst, dst, foldDst) {
 			continue
 		}
 		info.candidates++
 		verdicts = append(verdicts, verdict(i))
 		c := i
-		if best == nil || score(c) > score(*best) {
+		if best == nil || score(c) > score(*best) || (score(c) == score(*best) && refLess(c, *best)) {
 			best = &c
 		}
 	}
@@ -197,25 +210,41 @@ func renderRefList(l []ixn) string {
 
 // ---------------- query universe ----------------
 
-var qNames = []string{"web", "db", "api"}       // api: a name no intention mentions
-var qMatchNames = []string{"web", "db", "api", "*"}
+type universe struct {
+	id         string
+	srcNames   []string // intention source names
+	dstNames   []string // intention destination names
+	qNames     []string // names of queried (source, destination) pairs
+	matchNames []string // names of match queries
+	topo       []string // topology targets
+	variant    bool     // contains names differing only in letter case
+}
+
+// base: api is a name no intention mentions; ghost is not in the catalog
+var uniBase = &universe{id: "base", srcNames: []string{"web", "db", "*"}, dstNames: []string{"web", "db", "*"},
+	qNames: []string{"web", "db", "api"}, matchNames: []string{"web", "db", "api", "*"}, topo: []string{"web", "db", "api", "ghost"}}
+
+// case variants: names are compared EXACTLY, so web/Web are two sources and db/Db two destinations
+var uniCase = &universe{id: "case", srcNames: []string{"web", "Web", "db", "*"}, dstNames: []string{"db", "Db", "*"},
+	qNames: []string{"web", "Web", "db", "Db"}, matchNames: []string{"web", "Web", "db", "Db", "*"}, topo: []string{"web", "Web", "db", "Db"}, variant: true}
+
 var qPeers = []string{"", "peerA", "peerB"}     // peerB: a peer no intention mentions
 var catalog = []string{"web", "db", "api"}      // services registered in every store
-var qTopo = []string{"web", "db", "api", "ghost"} // ghost: not in the catalog
 
 type provider interface {
 	list() string
-	match(t structs.IntentionMatchType, idx int) string // idx into qMatchNames
+	match(t structs.IntentionMatchType, names []string, idx int) string
 	check(def, ap bool, src, dst string) string         // Intention.Check path
 	authz(def, ap bool, peer, src, dst string) string   // destination-side path
 	topo(down, def bool, target string) string
 }
 
-func lines(p provider) []string {
+func lines(p provider, u *universe) []string {
+	qNames, qMatchNames, qTopo := u.qNames, u.matchNames, u.topo
 	out := []string{"list|\t" + p.list()}
 	for _, t := range []structs.IntentionMatchType{structs.IntentionMatchSource, structs.IntentionMatchDestination} {
 		for i, n := range qMatchNames {
-			out = append(out, fmt.Sprintf("match-%s|%s\t%s", t, n, p.match(t, i)))
+			out = append(out, fmt.Sprintf("match-%s|%s\t%s", t, n, p.match(t, qMatchNames, i)))
 		}
 	}
 	for _, def := range []bool{false, true} {
@@ -247,6 +276,13 @@ type refP struct {
 	m    model
 	cfg  bool
 	cov  *coverage
+	fold string // "" = the specification; "legacy" / "cfg" = where that representation's indexes fold case (classification only)
+}
+
+// which side a defective representation folds: the legacy table folds the side its index is queried by;
+// the config entry table folds the entry name, i.e. the destination of destination-side queries
+func (r refP) foldMatch(t structs.IntentionMatchType) bool {
+	return r.fold == "legacy" || (r.fold == "cfg" && t == structs.IntentionMatchDestination)
 }
 
 type coverage struct {
@@ -266,8 +302,9 @@ func (r refP) noteTies(l []ixn) {
 		}
 	}
 }
-func (r refP) match(t structs.IntentionMatchType, idx int) string {
-	n := qMatchNames[idx]
+func (r refP) match(t structs.IntentionMatchType, names []string, idx int) string {
+	n := names[idx]
+	f := r.foldMatch(t)
 	l := refSorted(r.m, func(i ixn) bool {
 		if t == structs.IntentionMatchSource {
 			// a match by source is a query for a LOCAL source (peer exact: the local cluster)
@@ -277,12 +314,12 @@ func (r refP) match(t structs.IntentionMatchType, idx int) string {
 			if n == "*" {
 				return i.Src == "*"
 			}
-			return nameMatches(i.Src, n)
+			return nameMatchesF(i.Src, n, f)
 		}
 		if n == "*" {
 			return i.Dst == "*"
 		}
-		return nameMatches(i.Dst, n)
+		return nameMatchesF(i.Dst, n, f)
 	})
 	r.noteTies(l)
 	return renderRefList(l)
@@ -305,12 +342,12 @@ func (r refP) note(d decision, info pairInfo, peer string) {
 	}
 }
 func (r refP) check(def, ap bool, src, dst string) string {
-	d, info := refDecide(r.m, "", src, dst, def, ap)
+	d, info := refDecideF(r.m, "", src, dst, def, ap, r.fold == "legacy", false)
 	r.note(d, info, "")
 	return d.String()
 }
 func (r refP) authz(def, ap bool, peer, src, dst string) string {
-	d, info := refDecide(r.m, peer, src, dst, def, ap)
+	d, info := refDecideF(r.m, peer, src, dst, def, ap, false, r.fold != "")
 	r.note(d, info, peer)
 	return d.String()
 }
@@ -322,9 +359,9 @@ func (r refP) topo(down, def bool, target string) string {
 		}
 		var d decision
 		if down {
-			d, _ = refDecide(r.m, "", c, target, def, true)
+			d, _ = refDecideF(r.m, "", c, target, def, true, false, r.fold != "")
 		} else {
-			d, _ = refDecide(r.m, "", target, c, def, true)
+			d, _ = refDecideF(r.m, "", target, c, def, true, r.fold == "legacy", false)
 		}
 		if d.Allowed {
 			out = append(out, c)
@@ -397,7 +434,7 @@ func (r *realP) matchOne(t structs.IntentionMatchType, n string) (structs.Simpli
 	return l, nil
 }
 
-func (r *realP) match(t structs.IntentionMatchType, idx int) string {
+func (r *realP) match(t structs.IntentionMatchType, qMatchNames []string, idx int) string {
 	if _, ok := r.multi[t]; !ok && r.multiErr[t] == nil {
 		q := &structs.IntentionQueryMatch{Type: t}
 		for _, n := range qMatchNames {
@@ -791,13 +828,21 @@ func allDiffs(got, want []string) []int {
 
 // compareRef reports every disagreement between the real answers and the reference (one report per
 // distinct key and comparison, so that one defect class cannot hide another in the same store).
-func compareRef(run *core.Run, fl string, got, want []string, ctx map[string]any) bool {
+//
+// alt (may be nil) are the answers of the case-FOLDING variant of the reference: a real answer that is
+// wrong but equals alt's is still a violation, keyed C13:case-variant:<representation>:<site>, so that the
+// places where an index folds letter case are told apart from every other disagreement.
+func compareRef(run *core.Run, fl string, got, want, alt []string, ctx map[string]any) bool {
 	diffs := allDiffs(got, want)
 	seen := map[string]bool{}
 	for _, i := range diffs {
 		cat, q, g := splitLine(got[i])
 		_, _, w := splitLine(want[i])
 		key := fmt.Sprintf("C13:%s:%s:%s", fl, cat, diffClass(cat, g, w))
+		if len(alt) == len(got) && len(got) == len(want) && alt[i] == got[i] {
+			key = "C13:case-variant:" + foldSite(fl) + ":answers"
+			run.Distinct("case-variant-folded-answer-sites", fl+":"+cat)
+		}
 		if seen[key] {
 			continue
 		}
@@ -830,6 +875,63 @@ func compareOrders(run *core.Run, fl string, a, b []string, ctx map[string]any) 
 			core.JSON(ctx["written"]), core.JSON(ctx["first_written"])), w2)
 	}
 	return len(diffs) == 0
+}
+
+// foldSite names the root cause: the legacy table's indexes (source, destination, source_destination are
+// declared Lowercase) or the config entry table's id index (indexFromConfigEntry lower-cases the entry
+// name, i.e. the intention DESTINATION), while validation, AuthorizeIntentionTarget and the precedence
+// sorter compare names exactly.
+func foldSite(fl string) string {
+	if fl == flLegacy {
+		return "legacy-table-index-folds-case"
+	}
+	return "config-entry-name-folds-case"
+}
+
+// refLines: the specified answers and, for a universe with case variants, those of the folding variant.
+func refLines(m model, fl string, u *universe, cov *coverage) (want, alt []string) {
+	want = lines(refP{m: m, cfg: fl != flLegacy, cov: cov}, u)
+	if u.variant {
+		f := "cfg"
+		if fl == flLegacy {
+			f = "legacy"
+		}
+		alt = lines(refP{m: m, cfg: fl != flLegacy, cov: &coverage{}, fold: f}, u)
+	}
+	return
+}
+
+// foldTwin: an intention of the model that differs from i in the letter case of the source name only
+// (side "src": same peer, same destination) or of the destination name only (side "dst": any source).
+func foldTwin(m model, i ixn, side string) (ixn, bool) {
+	for _, o := range m {
+		if side == "src" && o.Peer == i.Peer && o.Dst == i.Dst && o.Src != i.Src && strings.EqualFold(o.Src, i.Src) {
+			return o, true
+		}
+		if side == "dst" && o.Dst != i.Dst && strings.EqualFold(o.Dst, i.Dst) {
+			return o, true
+		}
+	}
+	return ixn{}, false
+}
+
+// withoutFolded drops the list items whose destination (side "dst") or source and destination (side "src")
+// equal the given names up to letter case.
+func withoutFolded(list string, i ixn, side string) string {
+	head, items, _ := strings.Cut(list, " ")
+	var keep []string
+	for _, x := range strings.Split(items, ";") {
+		a, b, ok := strings.Cut(x, "=>[]default/")
+		if ok {
+			dst, _, _ := strings.Cut(b, " ")
+			src := a[strings.LastIndex(a, "/")+1:]
+			if strings.EqualFold(dst, i.Dst) && (side == "dst" || strings.EqualFold(src, i.Src)) {
+				continue
+			}
+		}
+		keep = append(keep, x)
+	}
+	return head + " " + strings.Join(keep, ";")
 }
 
 // peerTwin: an intention of the model to the same destination with the same source NAME but another peer.
@@ -872,6 +974,26 @@ func applyOp(run *core.Run, st *store, m model, o op, done []op) (ok, peerDefect
 		how += []string{"-mutation", "-entry"}[o.I.Mode]
 	}
 	run.Distinct("write-kind", o.Verb+":"+how)
+	srcTw, hasSrcTw := foldTwin(before, o.I, "src")
+	dstTw, hasDstTw := foldTwin(before, o.I, "dst")
+	if hasSrcTw {
+		// a source that differs from an existing source of the same destination in letter case only
+		switch {
+		case st.fl == flCfg && o.I.Mode == modeMutation && o.Verb == "put":
+			run.Count("case-variant-source-pairs-written-by-name")
+		case st.fl == flCfg && o.I.Mode == modeMutation:
+			run.Count("case-variant-source-deleted-by-name")
+		case st.fl == flCfg:
+			run.Count("case-variant-source-pairs-written-whole-entry")
+		case st.fl == flLegacyAPI:
+			run.Count("case-variant-source-pairs-written-by-legacy-id")
+		default:
+			run.Count("case-variant-source-pairs-written-legacy-table")
+		}
+	}
+	if hasDstTw {
+		run.Count("case-variant-destination-pairs-written:" + how)
+	}
 	cov := &coverage{}
 	want := refP{m: m, cfg: st.fl != flLegacy, cov: cov}.list()
 	got := newRealP(st.r.State()).list()
@@ -900,6 +1022,30 @@ func applyOp(run *core.Run, st *store, m model, o op, done []op) (ok, peerDefect
 					verb, o.I.Src, o.I.Dst, tw.Src, tw.Peer, e, got, want, core.JSON(wit["history"])), wit)
 			return false, true
 		}
+	}
+	// case variants: a write that touched an intention differing from the written one in letter case only.
+	// Recognised by the exact symptom: such a twin exists, and real and expected content differ in nothing
+	// but the intentions that equal the written one up to letter case.
+	if hasDstTw && withoutFolded(got, o.I, "dst") == withoutFolded(want, o.I, "dst") {
+		wit["case_twin"] = dstTw
+		run.Distinct("case-variant-folded-write-sites", how+":"+o.Verb+":destination")
+		run.Violation("C13:case-variant:"+foldSite(st.fl)+":write",
+			fmt.Sprintf("[%s] %s %s while %s->%s exists: destinations %q and %q were treated as one: error=%q list=%q expected=%q; history=%s",
+				how, o.Verb, core.JSON(o.I), dstTw.Src, dstTw.Dst, o.I.Dst, dstTw.Dst, e, got, want, core.JSON(wit["history"])), wit)
+		return false, false
+	}
+	if hasSrcTw && withoutFolded(got, o.I, "src") == withoutFolded(want, o.I, "src") {
+		wit["case_twin"] = srcTw
+		key := fmt.Sprintf("C13:case-variant:%s:write-%s:source-name-folds-case", how, o.Verb)
+		if st.fl == flLegacy {
+			// the legacy table's unique source_destination index folds both names
+			key = "C13:case-variant:" + foldSite(st.fl) + ":write"
+			run.Distinct("case-variant-folded-write-sites", how+":"+o.Verb+":source")
+		}
+		run.Violation(key,
+			fmt.Sprintf("[%s] %s %s while %s->%s exists: sources %q and %q of destination %q were treated as one: error=%q list=%q expected=%q; history=%s",
+				how, o.Verb, core.JSON(o.I), srcTw.Src, srcTw.Dst, o.I.Src, srcTw.Src, o.I.Dst, e, got, want, core.JSON(wit["history"])), wit)
+		return false, false
 	}
 	cls := "list-mismatch"
 	if e != "" {
@@ -967,12 +1113,12 @@ func addCoverage(run *core.Run, c *coverage) {
 
 // writeSetAllOrders writes the set in each permutation into a fresh store, compares every answer with the
 // reference and with the answers of the first order. base (may be nil) are answers every order must equal.
-func writeSetAllOrders(run *core.Run, fl, name string, set []ixn, perms [][]int, base []string, baseDesc any, cov *coverage) (peerDefect bool) {
+func writeSetAllOrders(run *core.Run, fl string, u *universe, name string, set []ixn, perms [][]int, base []string, baseDesc any, cov *coverage) (peerDefect bool) {
 	m := model{}
 	for _, i := range set {
 		m[i.slot()] = i
 	}
-	want := lines(refP{m: m, cfg: fl != flLegacy, cov: cov})
+	want, alt := refLines(m, fl, u, cov)
 	first, firstDesc := base, baseDesc
 	for pi, p := range perms {
 		st := newStore(fl, fmt.Sprintf("%s/%d", name, pi))
@@ -990,11 +1136,12 @@ func writeSetAllOrders(run *core.Run, fl, name string, set []ixn, perms [][]int,
 			}
 		}
 		if ok {
-			got := lines(newRealP(st.r.State()))
+			got := lines(newRealP(st.r.State()), u)
 			run.Count("stores_observed")
+			run.Count("stores_observed:" + u.id)
 			run.CountN("answers_compared", len(got))
 			ctx := map[string]any{"flavor": fl, "case": name, "written": done}
-			compareRef(run, fl, got, want, ctx)
+			compareRef(run, fl, got, want, alt, ctx)
 			if first == nil {
 				first, firstDesc = got, done
 			} else {
@@ -1019,18 +1166,19 @@ func allEntryMode(set []ixn) []ixn {
 	return out
 }
 
-func runSetCase(run *core.Run, name, fl string, set []ixn, rng *core.Rand) result {
+func runSetCase(run *core.Run, name, fl string, u *universe, set []ixn, rng *core.Rand) result {
 	cov := &coverage{}
 	perms := choosePerms(len(set), rng)
-	pd := writeSetAllOrders(run, fl, name, set, perms, nil, nil, cov)
+	pd := writeSetAllOrders(run, fl, u, name, set, perms, nil, nil, cov)
 	if pd {
 		// the known by-name-mutation defect made this case diverge: the same set is still checked,
 		// written through whole-entry writes only
 		run.Count("cases_rerun_entry_mode_after_peer_defect")
-		writeSetAllOrders(run, fl, name+"/entry", allEntryMode(set), perms, nil, nil, &coverage{})
+		writeSetAllOrders(run, fl, u, name+"/entry", allEntryMode(set), perms, nil, nil, &coverage{})
 	}
 	run.Eval()
 	run.Count("set_cases:" + fl)
+	run.Count("set_cases:" + u.id + ":" + fl)
 	run.CountN("permutations_written", len(perms))
 	addCoverage(run, cov)
 	res := result{nontrivial: cov.pairsDecides > 0, fp: core.Hash(fl, core.JSON(set))}
@@ -1043,7 +1191,7 @@ func runSetCase(run *core.Run, name, fl string, set []ixn, rng *core.Rand) resul
 // runHistoryCase: puts, updates, deletes and re-creations; every answer is compared with the reference
 // after EVERY step; the final set is then written in several orders into fresh stores, whose answers must
 // equal those of the store that went through the history.
-func runHistoryCase(run *core.Run, name, fl string, ops []op, rng *core.Rand) result {
+func runHistoryCase(run *core.Run, name, fl string, u *universe, ops []op, rng *core.Rand) result {
 	cov := &coverage{}
 	st := newStore(fl, name)
 	defer st.close()
@@ -1066,25 +1214,27 @@ func runHistoryCase(run *core.Run, name, fl string, ops []op, rng *core.Rand) re
 		if !ok {
 			break
 		}
-		got := lines(newRealP(st.r.State()))
-		want := lines(refP{m: m, cfg: fl != flLegacy, cov: cov})
+		got := lines(newRealP(st.r.State()), u)
+		want, alt := refLines(m, fl, u, cov)
 		run.Count("stores_observed")
+		run.Count("stores_observed:" + u.id)
 		run.CountN("answers_compared", len(got))
 		// a wrong ANSWER does not mean the store diverged (applyOp verified its content): the history goes on
-		compareRef(run, fl, got, want, map[string]any{"flavor": fl, "case": name, "written": done})
+		compareRef(run, fl, got, want, alt, map[string]any{"flavor": fl, "case": name, "written": done})
 		if run.Violations() > 30 {
 			break
 		}
 	}
 	run.Eval()
 	run.Count("history_cases:" + fl)
+	run.Count("history_cases:" + u.id + ":" + fl)
 	if recreated {
 		run.Count("histories_with_recreation")
 	}
 	if ok {
 		final := refSorted(m, func(ixn) bool { return true })
-		got := lines(newRealP(st.r.State()))
-		pd := writeSetAllOrders(run, fl, name+"/final", final, choosePerms(len(final), rng), got, done, &coverage{})
+		got := lines(newRealP(st.r.State()), u)
+		pd := writeSetAllOrders(run, fl, u, name+"/final", final, choosePerms(len(final), rng), got, done, &coverage{})
 		pdAny = pdAny || pd
 	}
 	if pdAny {
@@ -1096,7 +1246,7 @@ func runHistoryCase(run *core.Run, name, fl string, ops []op, rng *core.Rand) re
 			for i := range alt {
 				alt[i].I.Mode = modeEntry
 			}
-			runHistoryCase(run, name+"/entry", fl, alt, rng)
+			runHistoryCase(run, name+"/entry", fl, u, alt, rng)
 		}
 	}
 	addCoverage(run, cov)
@@ -1109,17 +1259,15 @@ func runHistoryCase(run *core.Run, name, fl string, ops []op, rng *core.Rand) re
 
 // ---------------- generators ----------------
 
-var names = []string{"web", "db", "*"}
-
-func slotsFor(fl string) []slot {
+func slotsFor(fl string, u *universe) []slot {
 	peers := []string{""}
 	if fl == flCfg {
 		peers = []string{"", "peerA"}
 	}
 	var out []slot
 	for _, p := range peers {
-		for _, s := range names {
-			for _, d := range names {
+		for _, s := range u.srcNames {
+			for _, d := range u.dstNames {
 				out = append(out, slot{p, s, d})
 			}
 		}
@@ -1133,8 +1281,8 @@ type setCase struct {
 }
 
 // enumSets: every set of <= maxK intentions with distinct (peer, source, destination), every allow/deny assignment.
-func enumSets(fl string, maxK int) []setCase {
-	sl := slotsFor(fl)
+func enumSets(fl string, u *universe, maxK int) []setCase {
+	sl := slotsFor(fl, u)
 	out := []setCase{{fl, nil}}
 	var rec func(start int, cur []ixn)
 	rec = func(start int, cur []ixn) {
@@ -1178,8 +1326,8 @@ func randAct(fl string, s slot, rng *core.Rand) string {
 	return core.Pick(rng, []string{"allow", "deny"})
 }
 
-func randHistory(fl string, rng *core.Rand) []op {
-	sl := slotsFor(fl)
+func randHistory(fl string, u *universe, rng *core.Rand) []op {
+	sl := slotsFor(fl, u)
 	k := 2 + rng.Intn(4) // pool of 2..5 intentions
 	p := rng.Perm(len(sl))
 	pool := make([]slot, 0, k)
@@ -1195,6 +1343,21 @@ func randHistory(fl string, rng *core.Rand) []op {
 			tw.Peer = ""
 		}
 		pool[1] = tw
+	}
+	if u.variant && rng.Chance(60) {
+		// two intentions that differ in the letter case of the source or of the destination only
+		tw := pool[0]
+		flip := map[string]string{"web": "Web", "Web": "web", "db": "Db", "Db": "db"}
+		if f, ok := flip[tw.Src]; ok && tw.Src != "db" && rng.Chance(70) {
+			tw.Src = f
+		} else if f, ok := flip[tw.Dst]; ok {
+			tw.Dst = f
+		} else if f, ok := flip[tw.Src]; ok && tw.Src != "db" {
+			tw.Src = f
+		}
+		if tw != pool[0] {
+			pool[len(pool)-1] = tw
+		}
 	}
 	present := map[slot]bool{}
 	n := 6 + rng.Intn(7)
@@ -1228,6 +1391,7 @@ func randHistory(fl string, rng *core.Rand) []op {
 type job struct {
 	name string
 	fl   string
+	u    *universe
 	set  []ixn
 	ops  []op
 	hist bool
@@ -1245,36 +1409,48 @@ func TestZZVerifC13(t *testing.T) {
 		"a match by source is a query about a local source (the endpoints cannot name a peer), so peer sources appear only in destination matches",
 		"tie-break checked among equal precedence: lexicographic (source peer, source name, destination name) as documented at IntentionPrecedenceSorter",
 		"IntentionMutation values are built exactly as Intention.Apply builds them (by-name upsert/delete only for local sources: the endpoint rejects SourcePeer); whole-entry writes are normalized and validated as ConfigEntry.Apply does",
-		"names differing only in letter case are not generated")
+		"names are compared exactly: web/Web are two sources and db/Db two destinations (universe 'case'); the catalog holds only lower-case service names")
+
 	rng := core.NewRand(core.Seed())
 
 	var jobs []job
 	// ---- Part A
 	var enumerated, space int
-	for _, fl := range []string{flLegacy, flLegacyAPI, flCfg} {
-		cases := enumSets(fl, 3)
-		space += len(cases)
-		want := len(cases)
-		if fl == flCfg {
-			want = core.N(1500, len(cases))
-		}
-		stride, offset := 1, 0
-		if want < len(cases) {
-			stride = len(cases) / want
-			offset = rng.Intn(stride)
-		}
-		for i := offset; i < len(cases); i += stride {
-			r := rng.Fork(uint64(i))
-			jobs = append(jobs, job{name: fmt.Sprintf("%s-set-%d", fl, i), fl: fl, set: decorate(cases[i], r), rng: r})
-			enumerated++
+	for _, u := range []*universe{uniBase, uniCase} {
+		for _, fl := range []string{flLegacy, flLegacyAPI, flCfg} {
+			cases := enumSets(fl, u, 3)
+			space += len(cases)
+			want := len(cases)
+			switch {
+			case u == uniBase && fl == flCfg:
+				want = core.N(1500, len(cases))
+			case u == uniCase && fl == flCfg:
+				want = core.N(900, len(cases))
+			case u == uniCase:
+				want = core.N(400, len(cases))
+			}
+			stride, offset := 1, 0
+			if want < len(cases) {
+				stride = len(cases) / want
+				offset = rng.Intn(stride)
+			}
+			for i := offset; i < len(cases); i += stride {
+				r := rng.Fork(uint64(i))
+				jobs = append(jobs, job{name: fmt.Sprintf("%s-%s-set-%d", u.id, fl, i), fl: fl, u: u, set: decorate(cases[i], r), rng: r})
+				enumerated++
+			}
 		}
 	}
 	// ---- Part B
-	nh := core.N(400, 50000)
+	nh := core.N(600, 50000)
 	for h := 0; h < nh; h++ {
 		r := rng.Fork(uint64(1_000_000 + h))
 		fl := core.Pick(r, []string{flCfg, flCfg, flCfg, flLegacyAPI, flLegacy})
-		jobs = append(jobs, job{name: fmt.Sprintf("hist-%d", h), fl: fl, ops: randHistory(fl, r), hist: true, rng: r})
+		u := uniBase
+		if h%3 == 2 {
+			u = uniCase
+		}
+		jobs = append(jobs, job{name: fmt.Sprintf("hist-%d", h), fl: fl, u: u, ops: randHistory(fl, u, r), hist: true, rng: r})
 	}
 
 	// ---- Part C: every valid history of <=4 writes over one local/peer pair of same-named sources of one
@@ -1292,7 +1468,7 @@ func TestZZVerifC13(t *testing.T) {
 	var recTwin func(cur []op, present map[slot]bool)
 	recTwin = func(cur []op, present map[slot]bool) {
 		if len(cur) >= 2 {
-			jobs = append(jobs, job{name: fmt.Sprintf("twin-%d", twin), fl: flCfg, ops: append([]op{}, cur...), hist: true, rng: rng.Fork(uint64(2_000_000 + twin))})
+			jobs = append(jobs, job{name: fmt.Sprintf("twin-%d", twin), fl: flCfg, u: uniBase, ops: append([]op{}, cur...), hist: true, rng: rng.Fork(uint64(2_000_000 + twin))})
 			twin++
 		}
 		if len(cur) == 4 {
@@ -1315,6 +1491,50 @@ func TestZZVerifC13(t *testing.T) {
 		}
 	}
 	recTwin(nil, map[slot]bool{})
+
+	// ---- Part E: every valid history of <=4 writes (quick: a quarter of those of 4) over the sources web / Web of ONE
+	// destination, each written and deleted by name (IntentionMutation as Intention.Apply builds it) or
+	// through the whole entry, plus a wildcard source: every creation order of the case-variant pair
+	caseAlpha := []op{
+		{"put", ixn{Src: "web", Dst: "db", Act: "allow", Mode: modeMutation}},
+		{"put", ixn{Src: "Web", Dst: "db", Act: "deny", Mode: modeMutation}},
+		{"put", ixn{Src: "web", Dst: "db", Act: "deny", Mode: modeEntry}},
+		{"put", ixn{Src: "Web", Dst: "db", Act: "allow", Mode: modeEntry}},
+		{"put", ixn{Src: "*", Dst: "db", Act: "deny", Mode: modeMutation}},
+		{"del", ixn{Src: "web", Dst: "db", Mode: modeMutation}},
+		{"del", ixn{Src: "Web", Dst: "db", Mode: modeMutation}},
+		{"del", ixn{Src: "web", Dst: "db", Mode: modeEntry}},
+		{"del", ixn{Src: "Web", Dst: "db", Mode: modeEntry}},
+	}
+	caseHist, caseSeen := 0, 0
+	var recCase func(cur []op, present map[slot]bool)
+	recCase = func(cur []op, present map[slot]bool) {
+		caseSeen++
+		// quick: every history of <=3 writes and every 4th of those of 4 writes
+		if len(cur) >= 2 && (len(cur) < 4 || core.Thorough() || caseSeen%4 == 0) {
+			jobs = append(jobs, job{name: fmt.Sprintf("casepair-%d", caseHist), fl: flCfg, u: uniCase, ops: append([]op{}, cur...), hist: true, rng: rng.Fork(uint64(3_000_000 + caseHist))})
+			caseHist++
+		}
+		if len(cur) == 4 {
+			return
+		}
+		for _, o := range caseAlpha {
+			if o.Verb == "del" && !present[o.I.slot()] {
+				continue
+			}
+			np := map[slot]bool{}
+			for k, v := range present {
+				np[k] = v
+			}
+			if o.Verb == "put" {
+				np[o.I.slot()] = true
+			} else {
+				delete(np, o.I.slot())
+			}
+			recCase(append(cur, o), np)
+		}
+	}
+	recCase(nil, map[slot]bool{})
 
 	results := make([]result, len(jobs))
 	workers := 8
@@ -1340,9 +1560,9 @@ func TestZZVerifC13(t *testing.T) {
 						}
 					}()
 					if j.hist {
-						results[i] = runHistoryCase(run, j.name, j.fl, j.ops, j.rng)
+						results[i] = runHistoryCase(run, j.name, j.fl, j.u, j.ops, j.rng)
 					} else {
-						results[i] = runSetCase(run, j.name, j.fl, j.set, j.rng)
+						results[i] = runSetCase(run, j.name, j.fl, j.u, j.set, j.rng)
 					}
 				}()
 			}
@@ -1365,6 +1585,7 @@ func TestZZVerifC13(t *testing.T) {
 	run.CountN("enumerated_sets", enumerated)
 	run.CountN("random_histories", nh)
 	run.CountN("peer_twin_histories", twin)
+	run.CountN("case_pair_histories", caseHist)
 	run.Extra("enumeration_space", space)
 	run.Extra("exhaustive", enumerated == space)
 
@@ -1380,6 +1601,14 @@ func TestZZVerifC13(t *testing.T) {
 	run.Floor("topology_nonempty", 1000)
 	run.Floor("histories_with_recreation", 50)
 	run.FloorDistinct("write-kind", 8)
+	run.Floor("stores_observed:case", 2000)
+	run.Floor("case-variant-source-pairs-written-by-name", 200)
+	run.Floor("case-variant-source-deleted-by-name", 50)
+	run.Floor("case-variant-source-pairs-written-whole-entry", 200)
+	run.Floor("case-variant-source-pairs-written-by-legacy-id", 100)
+	run.Floor("case-variant-source-pairs-written-legacy-table", 100)
+	run.Floor("case-variant-destination-pairs-written:cfg-mutation", 50)
+	run.Floor("case-variant-destination-pairs-written:cfg-entry", 50)
 	if run.Finish() == 1 {
 		t.Fail()
 	}
